@@ -77,6 +77,7 @@ type c07World struct {
 	errs      []string // oracle failures observed by threads (appended under the scheduler: one thread at a time)
 	acked     []refdb.Doc
 	cleanup   []func()
+	deletable bool // retention may delete the fraction under the readers: a returned ID may then fetch as empty
 }
 
 func (w *c07World) fail(format string, a ...any) {
@@ -131,6 +132,9 @@ func (w *c07World) readerPass(who string, search func(pq vfrac.ParsedQuery) ([]s
 		}
 		for i, id := range ids {
 			d := w.submitted[vfrac.RefID(id.ID)]
+			if w.deletable && i < len(docs) && len(docs[i]) == 0 {
+				continue
+			}
 			if i >= len(docs) || string(docs[i]) != d.Body {
 				got := "<missing>"
 				if i < len(docs) {
@@ -263,6 +267,24 @@ func directFetch(f frac.Fraction) func(ids []seq.IDSource) ([][]byte, error) {
 		for j, p := range pos {
 			res[p] = docs[j]
 		}
+		return res, nil
+	}
+}
+
+// providerFetch asks the fraction's data provider for every ID (no Contains pre-filter); a provider of a deleted
+// fraction answers with nothing.
+func providerFetch(f frac.Fraction) func(ids []seq.IDSource) ([][]byte, error) {
+	return func(ids []seq.IDSource) ([][]byte, error) {
+		in := make([]seq.ID, len(ids))
+		for i, id := range ids {
+			in[i] = id.ID
+		}
+		docs, err := vfrac.Fetch(f, in)
+		if err != nil {
+			return nil, err
+		}
+		res := make([][]byte, len(ids))
+		copy(res, docs)
 		return res, nil
 	}
 }
@@ -486,6 +508,122 @@ func c07Scenarios() []c07Scenario {
 		return w, bodies, func() { w.finalCheck(listSearch(get, 2), listFetch(get), true) }
 	}})
 	// (a Suicide racing with writes is retention, which is outside this property's quantifier)
+
+	// ---- H7: retention deletes a sealed fraction under a reader. Deletion is not in the property's list of
+	// interleaved operations, so what the readers SEE is not judged (a returned ID may fetch as empty) — but the
+	// "no panic, deadlock or error" clause is, for requests that go through the fraction's data provider (which is
+	// built to answer during and after a deletion): a request that overlaps the deletion still ends normally.
+	// (proxyFrac.Contains / Info / IsIntersecting after a deletion are another matter, see DESIGN 7.1.)
+	res = append(res, c07Scenario{"H7 reader on a sealed fraction + retention deletes it", func() (*c07World, []func(), func()) {
+		w := newC07World()
+		w.deletable = true
+		ai := frac.VerifNewIndexer(16)
+		fp := newFP(ai, 64*consts.MB)
+		pf := fp.newActiveRef(fp.NewActive(w.dir + "/seq-db-H7")).frac
+		docs := c07Bulk(0, 1, 2, 3)
+		w.submit(docs)
+		d0, m0 := vfrac.BuildBulk(docs, 1)
+		if err := pf.Append(d0, m0); err != nil {
+			panic(err)
+		}
+		for ai.VerifProcessOne() {
+		}
+		w.acked = docs
+		if _, err := pf.Seal(frac.SealParams{IDsZstdLevel: 1, LIDsZstdLevel: 1, TokenListZstdLevel: 1, DocsPositionsZstdLevel: 1, TokenTableZstdLevel: 1, DocBlocksZstdLevel: 1}); err != nil {
+			panic(err)
+		}
+		bodies := []func(){
+			func() { w.readerPass("reader0", directSearch(pf), providerFetch(pf)) },
+			func() { pf.Suicide() },
+		}
+		return w, bodies, func() {}
+	}})
+
+	// ---- R1 (property C15, run by TestVerifC15Sched): size-based retention reaches a fraction while it is being
+	// sealed — one maintenance pass rotates a full fraction, starts its seal and then shrinks the store, and that
+	// fraction is the oldest one over the limit. The seal and the deletion (the steps of shrinkSizes, in its order)
+	// run as two threads. Afterwards nothing of the fraction is left on disk and a restart does not serve it.
+	res = append(res, c07Scenario{"R1 retention deletes the fraction that is being sealed", func() (*c07World, []func(), func()) {
+		w := newC07World()
+		cfg := &Config{DataDir: w.dir, FracSize: 100 * consts.MB, TotalSize: 1000 * consts.MB, CacheSize: 64 * consts.MB}
+		fm := NewFracManager(cfg)
+		fm.fracProvider.Stop()
+		ai := frac.VerifNewIndexer(16)
+		fm.fracProvider = newFP(ai, 64*consts.MB)
+		if err := fm.Load(context.Background()); err != nil {
+			panic(err)
+		}
+		w.cleanup = append(w.cleanup, func() {
+			for _, f := range fm.GetAllFracs() {
+				f.Suicide()
+			}
+		})
+		pre := c07Bulk(0, 1)
+		w.submit(pre)
+		d0, m0 := vfrac.BuildBulk(pre, 1)
+		if err := fm.Append(context.Background(), d0, m0); err != nil {
+			panic(err)
+		}
+		for ai.VerifProcessOne() {
+		}
+		victim := fm.Active().Info().Name()
+		active := fm.rotate()
+		bodies := []func(){
+			func() { fm.seal(active) },
+			func() { // shrinkSizes for one outsider
+				outsider := fm.shiftFirstFrac()
+				if outsider == nil || outsider.Info().Name() != victim {
+					w.fail("harness: the oldest fraction is not the rotated one")
+					return
+				}
+				fm.fracCache.RemoveFraction(outsider.Info().Name())
+				outsider.Suicide()
+			},
+		}
+		return w, bodies, func() {
+			if err := fm.fracCache.SyncWithDisk(); err != nil {
+				w.fail("frac cache sync: %v", err)
+			}
+			for _, f := range fm.GetAllFracs() {
+				if f.Info().Name() == victim {
+					w.fail("the deleted fraction is still in the list of fractions")
+				}
+			}
+			ents, _ := os.ReadDir(w.dir)
+			var left []string
+			for _, e := range ents {
+				if strings.HasPrefix(e.Name(), victim) {
+					left = append(left, strings.TrimPrefix(e.Name(), victim))
+				}
+			}
+			if len(left) > 0 {
+				w.fail("files of the fraction deleted by retention are left on disk: %v", left)
+			}
+			// restart: the deleted documents must not come back
+			fm2 := NewFracManager(&Config{DataDir: w.dir, FracSize: 100 * consts.MB, TotalSize: 1000 * consts.MB, CacheSize: 64 * consts.MB})
+			fm2.fracProvider.Stop()
+			fm2.fracProvider = newFP(frac.VerifNewIndexer(16), 64*consts.MB)
+			if err := fm2.Load(context.Background()); err != nil {
+				w.fail("restart after the deletion: %v", err)
+				return
+			}
+			get := func() List { return fm2.GetAllFracs() }
+			for _, pq := range c07Queries {
+				ids, err := listSearch(get, 2)(pq)
+				if err != nil {
+					w.fail("restart: search %s: %v", pq.Text, err)
+				}
+				for _, id := range ids {
+					w.fail("restart: document %v of the fraction deleted by retention is served again (search %s)", vfrac.RefID(id.ID), pq.Text)
+				}
+			}
+			for _, f := range fm2.GetAllFracs() {
+				if f.Info().Name() == victim {
+					w.fail("restart: the fraction deleted by retention is loaded again")
+				}
+			}
+		}
+	}})
 
 	// ---- H3: rotation through the FracManager ----
 	res = append(res, c07Scenario{"H3 fm.Append+indexer+rotate/seal+reader", func() (*c07World, []func(), func()) {
@@ -759,6 +897,17 @@ func TestVerifWorker(t *testing.T) {
 	vlib.ServeWorker(map[string]vlib.Handler{"c07": c07Handle})
 }
 
+// c07Own keeps the scenarios whose name starts with the prefix (H: property C07, R: property C15).
+func c07Own(scs []c07Scenario, prefix string) []c07Scenario {
+	var res []c07Scenario
+	for _, s := range scs {
+		if strings.HasPrefix(s.name, prefix) {
+			res = append(res, s)
+		}
+	}
+	return res
+}
+
 type c07Case struct {
 	Scenario string `json:"scenario"`
 	Choices  []int  `json:"choices"`
@@ -766,7 +915,7 @@ type c07Case struct {
 
 func TestVerifC07(t *testing.T) {
 	r := vlib.NewRun("C07")
-	scs := c07Scenarios()
+	scs := c07Own(c07Scenarios(), "H")
 	if only := os.Getenv("VERIF_C07_ONLY"); only != "" {
 		var f []c07Scenario
 		for _, s := range scs {
@@ -850,7 +999,7 @@ func TestVerifC07(t *testing.T) {
 	}
 	ev := r.Get("evaluations")
 	r.Finish(t, "model_checking",
-		fmt.Sprintf("%d harness scenarios (H1 active index with 1-2 indexer threads, H1r concurrent re-delivery, H2 seal hand-over with and without Suicide, H3 rotation through the FracManager, H4 cache eviction under readers), each explored over ALL interleavings with 0..%d preemptions (iterative bounding; the deepest bound is time-capped and then reported as not exhaustive) at lock / rwlock / waitgroup / once / spawn granularity on the real code; every execution judged: no panic / deadlock / error, every returned ID submitted + matching + fetched with its bytes, at quiescence acknowledged documents visible and answers equal the sequential reference", len(scs), bound),
+		fmt.Sprintf("%d harness scenarios (H1 active index with 1-2 indexer threads, H1r concurrent re-delivery, H2 seal hand-over with and without Suicide, H3 rotation through the FracManager, H4 cache eviction under readers, H5 Searcher / Fetcher fan-out against a seal, H6 two overlapping seals, H7 a reader overlapping the retention delete of its sealed fraction - judged for panic / deadlock / error only), each explored over ALL interleavings with 0..%d preemptions (iterative bounding; the deepest bound is time-capped and then reported as not exhaustive) at lock / rwlock / waitgroup / once / spawn granularity on the real code; every execution judged: no panic / deadlock / error, every returned ID submitted + matching + fetched with its bytes, at quiescence acknowledged documents visible and answers equal the sequential reference", len(scs), bound),
 		map[string]any{
 			"states":                        len(scs),
 			"transitions":                   ev,
@@ -881,7 +1030,7 @@ func TestVerifC07Race(t *testing.T) {
 		rounds = 600
 	}
 	total := 0
-	for _, sc := range c07Scenarios() {
+	for _, sc := range c07Own(c07Scenarios(), "H") {
 		for i := 0; i < rounds; i++ {
 			w, bodies, final := sc.mk()
 			var wg sync.WaitGroup
@@ -914,4 +1063,72 @@ func TestVerifC07Race(t *testing.T) {
 		}
 	}
 	fmt.Printf("RACE-PASS rounds_per_scenario=%d executions=%d\n", rounds, total)
+}
+
+
+// TestVerifC15Sched: property C15's retention clause under concurrency — the R scenarios, explored like the H
+// scenarios (all interleavings, iterative preemption bounding), reported under C15.
+func TestVerifC15Sched(t *testing.T) {
+	r := vlib.NewRun("C15")
+	scs := c07Own(c07Scenarios(), "R")
+	pool := vlib.NewPool("c07", len(scs))
+	defer pool.Close()
+	var rc c07Case
+	if r.LoadReplay(&rc) {
+		if strings.HasPrefix(rc.Scenario, "R") {
+			var res c07Res
+			jr, _ := pool.Do(c07Job{Scenario: rc.Scenario, Choices: rc.Choices, Replay: true}, &res, 120*time.Second)
+			for _, v := range res.Viols {
+				r.Violation(rc.Scenario+": "+v.Sig, rc, v.Detail)
+			}
+			if jr.Died {
+				r.Violation(rc.Scenario+": process died", rc, jr.Stderr)
+			}
+		}
+		r.Finish(t, "model_checking", "replay", nil, nil)
+		return
+	}
+	bound, deadline := 2, 100
+	if r.Thorough() {
+		bound, deadline = 4, 1500
+	}
+	bounds := map[string]int{}
+	for _, sc := range scs {
+		budget := time.Now().Add(time.Duration(deadline) * time.Second)
+		completed := -1
+		for b := 0; b <= bound; b++ {
+			var res c07Res
+			left := int(time.Until(budget).Seconds())
+			if left < 5 {
+				r.Cap(fmt.Sprintf("scenario %q: time budget used up after completing preemption bound %d", sc.name, completed))
+				break
+			}
+			jr, err := pool.Do(c07Job{Scenario: sc.name, Bound: b, DeadlineS: left}, &res, time.Duration(left+600)*time.Second)
+			if err != nil {
+				panic(err)
+			}
+			if jr.Died || jr.Hung {
+				r.Violation(sc.name+": exploration process died: "+c07Norm(c07FirstCause(jr.Stderr)), c07Case{Scenario: sc.name}, fmt.Sprintf("died=%v hung=%v exit=%s bound=%d\n%s", jr.Died, jr.Hung, jr.Exit, b, jr.Stderr))
+				break
+			}
+			r.Add("evaluations", int64(res.Execs))
+			r.Add("schedules", int64(res.Execs))
+			r.Note("scenario %q bound=%d schedules=%d max_points=%d threads=%d capped=%v", sc.name, b, res.Execs, res.MaxPoints, res.MaxThreads, res.Capped)
+			for _, v := range res.Viols {
+				r.Violation(sc.name+": "+v.Sig, c07Case{Scenario: sc.name, Choices: v.Choices}, fmt.Sprintf("bound=%d choices=%v\n%s", b, v.Choices, v.Detail))
+			}
+			if res.Capped {
+				r.Cap(fmt.Sprintf("scenario %q: preemption bound %d stopped by the time budget after %d schedules (bound %d completed)", sc.name, b, res.Execs, completed))
+				break
+			}
+			completed = b
+		}
+		bounds[sc.name] = completed
+		r.Distinct("nontrivial", sc.name)
+	}
+	ev := r.Get("evaluations")
+	r.Finish(t, "model_checking",
+		fmt.Sprintf("concurrency part of C15: %d scenario (R1: one maintenance pass rotates a full fraction, starts its seal, and size-based retention picks that very fraction — fm.seal against the steps of shrinkSizes as two threads on the real FracManager), ALL interleavings with 0..%d preemptions at lock / rwlock / waitgroup granularity; after every execution: the fraction is out of the list, none of its files is left on disk, the frac cache is synced, and a restart (a fresh FracManager.Load of the directory) neither loads it nor serves any of its documents", len(scs), bound),
+		map[string]any{"states": len(scs), "transitions": ev, "traces_validated_against_impl": ev, "preemption_bound_completed": bounds},
+		[]string{"shrinkSizes' own goroutine for the deletion is the second controlled thread; its statements are repeated in the harness in the same order"})
 }
